@@ -351,11 +351,17 @@ def run_int_cfg(
                     state.pop(name, None)
                 else:
                     state[name] = val
-        elif isinstance(stmt, ast.Assign) and len(stmt.targets) == 1 and isinstance(stmt.targets[0], ast.Name) and stmt.targets[0].id in state:
+        elif isinstance(stmt, ast.Assign) and len(stmt.targets) == 1 and isinstance(stmt.targets[0], ast.Name):
+            # also introduces new integer locals (attempts = retries)
             try:
                 state[stmt.targets[0].id] = int_eval(stmt.value, atoms)
             except Unevaluable:
                 state.pop(stmt.targets[0].id, None)
+        elif isinstance(stmt, ast.AnnAssign) and isinstance(stmt.target, ast.Name) and stmt.value is not None:
+            try:
+                state[stmt.target.id] = int_eval(stmt.value, atoms)
+            except Unevaluable:
+                state.pop(stmt.target.id, None)
         if isinstance(stmt, ast.Raise):
             exc_expr = stmt.exc
             if exc_expr is None:
